@@ -3,7 +3,7 @@ CONSTANTS
   MaxSigs = 4
   MaxSteps = 3
   MaxOps = 3
-  Tools = {"none", "key", "eth", "manual_ok", "manual_bad", "manual_spell", "message"}
+  Tools = {"none", "key", "eth", "manual_ok", "manual_bad", "manual_spell", "message", "eth_pub"}
 INVARIANT AuthorizedIffK
 INVARIANT EmitB
 CHECK_DEADLOCK FALSE
